@@ -14,11 +14,17 @@ pub struct Start {
     pub forest: Vec<A>,
     pub adjacent_text: bool,
     pub consolidation: bool,
+    /// indices of world::PARSE_TEXTS parsed into the start forest (fills the xml:id index)
+    #[serde(default)]
+    pub parse: Vec<u8>,
 }
 
 impl Start {
     pub fn world(&self) -> World {
         let mut w = World::from_forest(&self.forest, self.adjacent_text);
+        for i in &self.parse {
+            w.apply(&Op::Parse(*i));
+        }
         if !self.consolidation {
             w.apply(&Op::SetConsolidation(false));
         }
